@@ -37,79 +37,82 @@ Print Assumptions c08_sqlparser_pinned.
 
 (* ---------------------------------------------------------------- strings *)
 
-(* FULL STATEMENT (false of the unchanged tree, finding F6):
-     string_roundtrip : forall d s, sql_lex d (emit_string s) = [TString s].
-   "The emitted text is one string token whose value is s": value preservation and
-   non-interference with the statement in one equation. *)
+(* What prqlc emits for a string literal NOW (fix e3af91e) is emit_literal_string s = sqlparser's Display of the value
+   with every quote doubled.  On the standard family the statement holds at FULL strength:
+   the emitted text is one string token whose value is s -- value preservation and non-interference in one equation. *)
+Theorem string_roundtrip : forall s, sql_lex std_sql (emit_literal_string s) = [TString s].
+Proof. exact literal_string_roundtrip_std. Qed.
+Print Assumptions string_roundtrip.
 
-(* value change: the PRQL value a''b (two adjacent quotes) is read back as a'b *)
-Theorem string_roundtrip_refuted :
+(* no literal content changes the structure of the surrounding statement: in ANY context that ends between two
+   tokens, followed by anything that does not start with a quote, the token sequence is the context's with exactly
+   one string token inserted -- for ALL strings *)
+Theorem literal_no_structure_change : forall s pre suf,
+  closed_prefix std_sql pre = true -> starts_with 39 suf = false ->
+  sql_lex std_sql (pre ++ emit_literal_string s ++ suf) = sql_lex std_sql pre ++ TString s :: sql_lex std_sql suf.
+Proof. exact literal_string_in_context_std. Qed.
+Print Assumptions literal_no_structure_change.
+
+(* ALL dialects.  FULL STATEMENT (still false, finding F6b, open):
+     forall d s, sql_lex d (emit_literal_string s) = [TString s].
+   Backslash family (MySQL, BigQuery, ClickHouse, Snowflake, Redshift): backslashes are emitted verbatim:
+   a\nb (backslash, n) is read back as a, LF, b; a trailing backslash swallows the closing quote *)
+Theorem string_roundtrip_backslash_refuted :
+  exists s, sql_lex bs_sql (emit_literal_string s) <> [TString s].
+Proof. exists [97; 92; 110; 98]. vm_compute. discriminate. Qed.
+Print Assumptions string_roundtrip_backslash_refuted.
+
+Theorem string_unterminated_backslash_refuted :
+  exists s, sql_lex bs_sql (emit_literal_string s) = [TUnterminated].
+Proof. exists [97; 92]. vm_compute. reflexivity. Qed.
+Print Assumptions string_unterminated_backslash_refuted.
+
+(* PARTIAL for all dialects: every string without a backslash (any string at all when the dialect has no backslash escapes) *)
+Theorem string_roundtrip_partial : forall d s,
+  bs_free d s = true -> sql_lex d (emit_literal_string s) = [TString s].
+Proof. exact literal_string_roundtrip. Qed.
+Print Assumptions string_roundtrip_partial.
+
+Theorem literal_no_structure_change_partial : forall d s pre suf,
+  bs_free d s = true -> closed_prefix d pre = true -> starts_with 39 suf = false ->
+  sql_lex d (pre ++ emit_literal_string s ++ suf) = sql_lex d pre ++ TString s :: sql_lex d suf.
+Proof. exact literal_string_in_context. Qed.
+Print Assumptions literal_no_structure_change_partial.
+
+(* ---- facts about the DEPENDENCY (sqlparser's EscapeQuotedString alone, Model/Escape.v emit_string), which is why
+   prqlc has to double the quotes itself; they are what finding F6 (fixed) consisted of and what would come back if
+   the pre-doubling were removed *)
+Theorem sqlparser_display_refuted :
   exists s, sql_lex std_sql (emit_string s) <> [TString s].
 Proof. exists [97; 39; 39; 98]. vm_compute. discriminate. Qed.
-Print Assumptions string_roundtrip_refuted.
+Print Assumptions sqlparser_display_refuted.
 
-(* structure change: the value  \' OR 1=1 --  ends the literal after the backslash; OR 1 = 1 become
-   tokens of the statement and the closing quote disappears into a comment *)
-Theorem string_injection_refuted :
+Theorem sqlparser_display_injection_refuted :
   exists s, sql_lex std_sql (emit_string s) =
             [TString [92]; TWord [79; 82]; TNumber [49]; TPunct 61; TNumber [49]].
 Proof. exists [92; 39; 32; 79; 82; 32; 49; 61; 49; 32; 45; 45]. vm_compute. reflexivity. Qed.
-Print Assumptions string_injection_refuted.
+Print Assumptions sqlparser_display_injection_refuted.
 
-(* backslash family (MySQL, BigQuery, ClickHouse, Snowflake, Redshift): a value with a backslash and
-   no quote at all is already changed:  a\nb  (backslash, n) is read back as a, LF, b *)
-Theorem string_roundtrip_backslash_refuted :
-  exists s, esc_known QUOTE s = false /\ sql_lex bs_sql (emit_string s) <> [TString s].
-Proof. exists [97; 92; 110; 98]. split; [reflexivity|]. vm_compute. discriminate. Qed.
-Print Assumptions string_roundtrip_backslash_refuted.
-
-(* ... and a trailing backslash swallows the closing quote *)
-Theorem string_unterminated_backslash_refuted :
-  exists s, esc_known QUOTE s = false /\ sql_lex bs_sql (emit_string s) = [TUnterminated].
-Proof. exists [97; 92]. split; vm_compute; reflexivity. Qed.
-Print Assumptions string_unterminated_backslash_refuted.
-
-(* PARTIAL: outside the known class -- the value contains neither two adjacent quotes nor
-   backslash-quote, and for the backslash family no backslash -- the round trip holds for ALL strings *)
-Theorem string_roundtrip_partial : forall d s,
-  str_ok d s = true -> sql_lex d (emit_string s) = [TString s].
-Proof. exact string_roundtrip_ok. Qed.
-Print Assumptions string_roundtrip_partial.
-
-Theorem string_roundtrip_partial_std : forall s,
-  esc_known QUOTE s = false -> sql_lex std_sql (emit_string s) = [TString s].
-Proof. exact string_roundtrip_std. Qed.
-Print Assumptions string_roundtrip_partial_std.
-
-(* no literal content changes the structure of the surrounding statement: in ANY context that ends
-   between two tokens, followed by anything that does not start with a quote, the token sequence is
-   the context's with exactly one string token inserted *)
-Theorem literal_no_structure_change : forall d s pre suf,
-  str_ok d s = true -> closed_prefix d pre = true -> starts_with 39 suf = false ->
-  sql_lex d (pre ++ emit_string s ++ suf) = sql_lex d pre ++ TString s :: sql_lex d suf.
-Proof. exact string_in_context. Qed.
-Print Assumptions literal_no_structure_change.
-
-(* the quoting model outside the known class is the textbook one: every quote doubled *)
-Theorem emit_string_is_doubling : forall s,
+(* sqlparser doubles every quote exactly when the value contains neither two adjacent quotes nor backslash-quote *)
+Theorem sqlparser_display_is_doubling : forall s,
   esc_known QUOTE s = false -> emit_string s = QUOTE :: dbl QUOTE s ++ [QUOTE].
 Proof. exact emit_string_not_known. Qed.
-Print Assumptions emit_string_is_doubling.
+Print Assumptions sqlparser_display_is_doubling.
 
-(* the proposed repair (fixes/F06-*.diff: double the quotes before handing the value to sqlparser)
-   restores the FULL statement on the standard family, in every context *)
-Theorem string_roundtrip_fixed : forall s pre suf,
-  closed_prefix std_sql pre = true -> starts_with 39 suf = false ->
-  sql_lex std_sql (pre ++ emit_string_fixed s ++ suf) = sql_lex std_sql pre ++ TString s :: sql_lex std_sql suf.
-Proof. exact string_fixed_std_in_context. Qed.
-Print Assumptions string_roundtrip_fixed.
+(* ... and text whose quotes are already doubled passes through it unchanged, whatever precedes: why the repair works *)
+Theorem predoubled_passes_sqlparser : forall q s prev, esc q prev (dbl q s) = dbl q s.
+Proof. exact esc_dbl. Qed.
+Print Assumptions predoubled_passes_sqlparser.
 
-(* every string value has a PRQL spelling that denotes it, and (outside the known class) the SQL
-   emitted for it is read back as the same value *)
-Theorem string_literal_end_to_end : forall d v, str_ok d v = true ->
+Theorem emit_literal_string_is_doubling : forall s, emit_literal_string s = QUOTE :: dbl QUOTE s ++ [QUOTE].
+Proof. exact emit_literal_string_eq. Qed.
+Print Assumptions emit_literal_string_is_doubling.
+
+(* every string value has a PRQL spelling that denotes it, and the SQL emitted for it is read back as the same value *)
+Theorem string_literal_end_to_end : forall d v, bs_free d v = true ->
   exists src, quoted_string tbl true src = Some (v, []) /\
-              emit_literal false (LString v) = Some (emit_string v) /\
-              sql_lex d (emit_string v) = [TString v].
+              emit_literal false (LString v) = Some (emit_literal_string v) /\
+              sql_lex d (emit_literal_string v) = [TString v].
 Proof. exact (fun d v => LiteralProofs.string_literal_end_to_end tbl d v c08_escape_table_ok). Qed.
 Print Assumptions string_literal_end_to_end.
 
@@ -124,7 +127,7 @@ Proof. exact raw_roundtrip. Qed.
 Print Assumptions raw_string_value.
 
 (* f-string text: braces are written doubled; the text piece has exactly that value (and is then
-   emitted through emit_string like any string literal) *)
+   emitted through emit_literal_string like any string literal) *)
 Theorem fstring_text_value : forall t, t <> [] -> fstring_pieces (brace_escape t) = Some [PText t].
 Proof. exact fstring_text. Qed.
 Print Assumptions fstring_text_value.
@@ -175,9 +178,9 @@ Proof. exact LiteralProofs.date_literal_preserved. Qed.
 Print Assumptions date_literal_preserved.
 
 (* ---------------------------------------------------------------- non-vacuity *)
-Example c08_ex_ok_string : str_ok std_sql [105; 116; 39; 115; 32; 45; 45; 32; 47; 42; 32; 59] = true.  (* it's -- /* ; *)
+Example c08_ex_injection : sql_lex std_sql (emit_literal_string [92; 39; 32; 79; 82; 32; 49; 61; 49; 32; 45; 45]) = [TString [92; 39; 32; 79; 82; 32; 49; 61; 49; 32; 45; 45]].
 Proof. vm_compute. reflexivity. Qed.
-Example c08_ex_ok_bs : str_ok bs_sql [105; 116; 39; 115] = true.
+Example c08_ex_ok_bs : bs_free bs_sql [105; 116; 39; 115] = true.
 Proof. vm_compute. reflexivity. Qed.
 Example c08_ex_context : closed_prefix std_sql [83;69;76;69;67;84;32] = true.                       (* "SELECT " *)
 Proof. vm_compute. reflexivity. Qed.
